@@ -453,7 +453,7 @@ Fixpoint bind_target (fuel : nat) (s : store) (t : target) (v : value) (e : env)
           end
       | TTuple ts =>
           match iter_elems s v with
-          | None => if is_iterable v then BUnsup else BErr EType
+          | None => BUnsup   (* unpacking a non-iterable: not defined by the guide *)
           | Some vs =>
               (fix go (ts : list target) (vs : list value) (e : env) : bindres :=
                  match ts with
@@ -465,6 +465,43 @@ Fixpoint bind_target (fuel : nat) (s : store) (t : target) (v : value) (e : env)
                      | r => r
                      end
                  end) ts vs e
+          end
+      end
+  end.
+
+(* function arguments: nested unpacking needs an indexable container with a
+   MATCHING number of elements (guide, "Unpacking Arguments") *)
+Fixpoint bind_arg (fuel : nat) (s : store) (t : target) (v : value) (e : env) : bindres :=
+  match fuel with
+  | O => BUnsup
+  | S f =>
+      match t with
+      | TWild => BOk e
+      | TId x h =>
+          match h with
+          | Some h => if hint_ok h v then BOk (update x v e) else BErr EType
+          | None => BOk (update x v e)
+          end
+      | TTuple ts =>
+          match v with
+          | VList _ | VTuple _ | VRange _ _ _ =>
+              match iter_elems s v with
+              | None => BUnsup
+              | Some vs =>
+                  if negb (Nat.eqb (length ts) (length vs)) then BErr ERuntime
+                  else
+                    (fix go (ts : list target) (vs : list value) (e : env) : bindres :=
+                       match ts, vs with
+                       | t :: ts', v :: vs' =>
+                           match bind_arg f s t v e with
+                           | BOk e' => go ts' vs' e'
+                           | r => r
+                           end
+                       | _, _ => BOk e
+                       end) ts vs e
+              end
+          | VStr _ | VMap _ => BUnsup
+          | _ => BErr EType
           end
       end
   end.
@@ -488,6 +525,9 @@ Fixpoint match_pat (fuel : nat) (s : store) (p : pattern) (v : value) (e : env) 
         | VTuple vs => Some vs
         | _ => None
         end in
+      (* strings, ranges and maps have a size too: the guide only speaks of lists and
+         tuples for nested patterns, so those subjects are left without a verdict *)
+      let other_sized := match v with VStr _ | VRange _ _ _ | VMap _ => true | _ => false end in
       let match_all :=
         fix match_all (ps : list pattern) (vs : list value) (e : env) : matchres :=
           match ps, vs with
@@ -510,7 +550,7 @@ Fixpoint match_pat (fuel : nat) (s : store) (p : pattern) (v : value) (e : env) 
       | PTuple ps =>
           match seq_elems with
           | Some vs => if Nat.eqb (length ps) (length vs) then match_all ps vs e else MNo
-          | None => MNo
+          | None => if other_sized then MStuck RUnsup else MNo
           end
       | PTupleRest before rest after =>
           match seq_elems with
@@ -540,7 +580,7 @@ Fixpoint match_pat (fuel : nat) (s : store) (p : pattern) (v : value) (e : env) 
                 | r => r
                 end
               else MNo
-          | None => MNo
+          | None => if other_sized then MStuck RUnsup else MNo
           end
       | PMap keys =>
           match v with
@@ -679,7 +719,7 @@ Fixpoint eval (fuel : nat) (cenv : env) (e : env) (s : store) (x : expr) {struct
                            match v with
                            | None => BErr EArgs
                            | Some v =>
-                               match bind_target DEPTH s t v fe with
+                               match bind_arg DEPTH s t v fe with
                                | BOk fe' => go ps' args' fe'
                                | r => r
                                end
@@ -733,7 +773,7 @@ Fixpoint eval (fuel : nat) (cenv : env) (e : env) (s : store) (x : expr) {struct
           match ev e s a with
           | (RVal (VInt z), e1, s1) => (RVal (VInt (wrap64 (- z))), e1, s1)
           | (RVal (VFlt z), e1, s1) => (RVal (VFlt (f_neg z)), e1, s1)
-          | (RVal _, e1, s1) => (RErr EUnimpl, e1, s1)
+          | (RVal _, e1, s1) => (RErr EType, e1, s1)
           | other => other
           end
       | ENot a =>
